@@ -48,6 +48,10 @@ CHECKS = {
             'type predicate derived from the model',
             'Held on the executions produced: accepted exactly the values inside the declared type, refusal '
             'always ValidationError, accepted values read back equal up to documented normalisations.', '4 C08'),
+    'C10': ('runtime monitoring: defaults read from never-set fields of the real generated classes and examples from '
+            'the real UserDefined.get_examples() decoded strictly and re-encoded by the real serializer',
+            'Held on the executions produced, with two open known findings (Bytes / Timestamp defaults emitted '
+            'as text).', '4 C10'),
 }
 
 PENDING = {}
